@@ -86,6 +86,21 @@ let handle toks =
   | ["cp2k"; data; lines] ->
     out_lst "," hex_of_str (cp2k_update_data (lst ',' (pair_of ':' str_of_hex ostr_of) data) (lst ',' str_of_hex lines))
   | ["cp2knew"; data] -> out_lst "," hex_of_str (cp2k_new_data (lst ',' (pair_of ':' str_of_hex ostr_of) data))
+  | ["cp2kapply"; lines; ups; rms] ->
+    let fld u = match String.split_on_char '~' u with
+      | [t; ss; rp; isd; data; dl] ->
+        { u_target = str_of_hex t; u_setts = lst ',' str_of_hex ss; u_replace = bool_of_string_ rp;
+          u_dict = bool_of_string_ isd; u_data = lst ',' (pair_of ':' str_of_hex ostr_of) data;
+          u_lines = lst ',' str_of_hex dl }
+      | _ -> failwith "bad update" in
+    (match cp2k_apply (lst ',' str_of_hex lines) (lst ';' fld ups) (lst ',' str_of_hex rms) with
+     | None -> "N"
+     | Some out -> out_lst "," hex_of_str out)
+  | ["cp2krefs"; lines] ->
+    (match cp2k_read (lst ',' str_of_hex lines) with
+     | None -> "N"
+     | Some (_, roots) ->
+       out_lst "," (fun (k, (i, ss)) -> hex_of_str k ^ ":" ^ string_of_nat i ^ ":" ^ hex_of_str (join_sp ss)) (cp2k_refs roots))
   | ["lmp"; s; lines] ->
     let (out, miss) = lmp_write_for_run (lst ',' (pair_of ':' str_of_hex str_of_hex) s) (lines_of lines) in
     out_lst ";" (fun l -> out_lst "," string_of_piece l) out ^ "|" ^ out_lst "," hex_of_str miss
